@@ -108,6 +108,57 @@ def pathctx_phase(out, tier):
         out.extra.setdefault('deviations_rejected', {})[dev] = r2.violated
 
 
+def zip_phase(out):
+    """import by path from inside a zip archive ('<archive>.zip/<member>.py', also with ':'), succeeding and failing: sys.path,
+    the warning filters and the standard streams must be what they were (the first such import of the process is the one
+    that could install something)"""
+    import os
+    import sys
+    import warnings
+    import zipfile
+    from xdoctest.utils import util_import
+    d = common.scratch_dir('xdv-c12zip')
+    arch = os.path.join(d, 'xdvarch.zip')
+    with zipfile.ZipFile(arch, 'w') as z:
+        z.writestr('xdvztop.py', 'V = 1\n')
+        z.writestr('xdvzfolder/xdvzbar.py', 'V = 2\n')
+        z.writestr('xdvzboom.py', 'raise RuntimeError("import boom")\n')
+    cases = [(arch + '/xdvztop.py', True), (arch + ':xdvzfolder/xdvzbar.py', True), (arch + os.path.sep + 'xdvzboom.py', False),
+             (arch + '/xdvzmissing.py', False), (os.path.join(d, 'nothere.zip') + '/x.py', False), (arch + '/xdvztop.py', True)]
+    for path, ok in cases:
+        before = (list(sys.path), list(warnings.filters), sys.stdout, sys.stderr, warnings.showwarning)
+        got = 'returned'
+        try:
+            old = sys.stdout
+            import io
+            sink = io.StringIO()
+            sys.stdout = sink
+            try:
+                before = (list(sys.path), list(warnings.filters), sys.stdout, sys.stderr, warnings.showwarning)
+                util_import.import_module_from_path(path)
+            finally:
+                after = (list(sys.path), list(warnings.filters), sys.stdout, sys.stderr, warnings.showwarning)
+                sys.stdout = old
+        except Exception as ex:
+            got = 'raised ' + type(ex).__name__
+        out.traces += 1
+        out.evaluations += 1
+        bad = []
+        if (got == 'returned') != ok:
+            bad.append(('import_from_zip', 'returns' if ok else 'raises', got))
+        for name, a, b in zip(('sys_path', 'warning_filters', 'stdout', 'stderr', 'showwarning'), before, after):
+            if (a is not b) if name in ('stdout', 'stderr', 'showwarning') else (a != b):
+                bad.append((name + '_restored', 'unchanged', [x for x in b if x not in a][:3] if isinstance(b, list) else repr(b)[:100]))
+        if bad:
+            out.violation({'kind': 'zip_import', 'fields': ','.join(sorted(x[0] for x in bad))},
+                          {'path': os.path.relpath(path, d), 'outcome': got, 'disagreements': [(f, repr(a), repr(b)) for f, a, b in bad]})
+        warnings.filters[:] = before[1]
+        sys.path[:] = before[0]
+    for m in ('xdvztop', 'xdvzfolder/xdvzbar', 'xdvzfolder', 'xdvzboom'):
+        sys.modules.pop(m, None)
+    out.extra['zip_import_cases'] = len(cases)
+
+
 def nontrivial(info):
     return True
 
@@ -122,6 +173,7 @@ def run(tier):
             dict(label='C12/importfail', parts='C12_Parts', maxparts=2, onerrors=('return', 'raise'), modes=('native',), importoks=('FALSE',), verbose='rotate')]
     runlib.docrun_check(out, runs, nontrivial_fn=nontrivial)
     runlib.deviation_must_fail(out, 'C12_Parts', 2, 'NoStdoutRestore')
+    zip_phase(out)           # first: no zip import has happened in this process yet
     pathctx_phase(out, tier)
     out.assumptions = ['stderr is never swapped by the library; it is compared all the same',
                        'the doctest replaces sys.stdout by assignment inside a part, or closes the capture stream (body kind closeout); verbosity 0..3 rotates '
